@@ -183,6 +183,13 @@ def _interpret(R, f):
     init = State()
     for c in carries:
         init.store[("self", c)] = [("C", c)]
+    # borrows taken once before the loop (`let Self { reader, line } = self;`, `let buf = &mut self.line;`) name the same storage inside it
+    for b in sorted(x for x in f.reach if x != header and x not in body and f.dominates(x, header)):
+        for s_ in f.blocks[b]["stmts"]:
+            if s_["k"] == "assign" and not s_["pl"]["p"] and (s_["rv"]["k"] in ("ref", "copy_for_deref", "rawptr") or
+                                                              (s_["rv"]["k"] == "use" and s_["rv"]["op"].get("k") in ("copy", "move") and
+                                                               f.local_ty(s_["pl"]["l"]).startswith("&"))):
+                _stmt(f, init, s_, b)
     outcomes = []   # (kind, state, value, bb)
     _walk(f, header, init, set(), outcomes, header, body, depth=0)
     delivers = [o for o in outcomes if o[0] == "some"]
